@@ -72,6 +72,9 @@ type packet struct {
 
 type world struct {
 	run    *simkit.Run
+	// gapPossible: ids that some observer has forgotten and learnt again (F4);
+	// the version gap is inherited by whoever learns the node from it.
+	gapPossible map[string]bool
 	nw     *simnet.Net
 	nodes  []*node
 	byID   map[string]*node
@@ -398,6 +401,10 @@ func (w *world) checkRouting(o *node) {
 	for id := range o.prevKnown {
 		if _, ok := metas[id]; !ok {
 			o.expiredOnce[id] = true
+			if w.gapPossible == nil {
+				w.gapPossible = map[string]bool{}
+			}
+			w.gapPossible[id] = true
 		}
 	}
 	o.prevKnown = map[string]bool{}
@@ -408,7 +415,7 @@ func (w *world) checkRouting(o *node) {
 	// answers a digest sent before it was forgotten; such a delta starts after
 	// the old version, so everything up to it is missing for good.
 	after := func(sig, id string) string {
-		if o.expiredOnce[id] {
+		if o.expiredOnce[id] || w.gapPossible[id] {
 			return sig + "-after-expiry-relearn"
 		}
 		return sig
